@@ -338,6 +338,49 @@ pub fn run(ctx: &Ctx, rep: &mut Report) {
         rep.violations(vs);
     }
 
+    // work areas beyond position 32768: scattered erasure sets, each exactly sufficient and with one surplus shard
+    // (a different locator for the same data), recovery shards first and originals first
+    let bigs: Vec<(usize, usize)> = if ctx.thorough() { vec![(40000, 1000), (1000, 40000), (30000, 3000), (32768, 32768), (50000, 15000)] } else { vec![(40000, 1000), (1000, 40000)] };
+    let mut big_jobs: Vec<(&'static str, &'static str, usize, usize)> = Vec::new();
+    for &(k, r) in &bigs {
+        for codec in ["high", "low", "def"] {
+            if spec_supports(codec_kind(codec), k, r) && (ctx.thorough() || codec != "def") {
+                big_jobs.push((if engines_fast().contains(&"avx2") && (k + r) % 2 == 0 { "avx2" } else { "nosimd" }, codec, k, r));
+            }
+        }
+    }
+    rep.bound("beyond_32768_surplus", J::s(format!("{bigs:?}: 12 scattered erasure sets, each exactly sufficient and with one surplus recovery shard, in two arrival orders")));
+    let big_results: Vec<(u64, Vec<Violation>)> = par_for(big_jobs.len(), 1, |i| {
+        let (eng, codec, k, r) = big_jobs[i];
+        let g = match build_group(eng, codec, k, r, "dense:2", 0, seed) {
+            Ok(g) => g,
+            Err(e) => return (0, vec![Violation { key: format!("encode-{codec}-{eng}-{k}-{r}"), case: Kv::new().with("eng", eng).with("codec", codec).with("k", k).with("r", r).with("data", "dense:2").with("soil", 0).with("seed", seed).with("order", "-").dump(), expected: "encode Ok".into(), observed: e }]),
+        };
+        let mut n = 0u64;
+        let mut viols = Vec::new();
+        for (name, og, rg) in crate::c01::families(k, r).into_iter().filter(|f| f.0.starts_with("scatter")) {
+            let o_first: Vec<usize> = og.iter().copied().chain(rg.iter().map(|j| k + j)).collect();
+            let r_first: Vec<usize> = rg.iter().rev().map(|j| k + j).chain(og.iter().copied()).collect();
+            for order in [o_first, r_first] {
+                n += 1;
+                if viols.len() < 10 {
+                    if let Err((exp, obs)) = check_order(&g, &order) {
+                        viols.push(Violation { key: format!("{}-{}-k{}r{}-{}-{}", g.codec, g.eng, g.k, g.r, name, if order[0] < k { "ofirst" } else { "rfirst" }), case: g.kv().with("order", fmt_list(&order)).dump(), expected: exp, observed: obs });
+                    }
+                }
+            }
+        }
+        (n, viols)
+    });
+    for (n, vs) in big_results {
+        rep.traces += n;
+        rep.evaluations += n;
+        rep.states += n;
+        rep.transitions += n;
+        rep.distinct += n;
+        rep.violations(vs);
+    }
+
     let results: Vec<Result<Out, Violation>> = par_for(specs.len(), 1, |i| {
         let (eng, codec, k, r, perms) = &specs[i];
         let big = eng.ends_with("#big");
